@@ -200,6 +200,18 @@ func sioReadFasta(data []byte, typ string, alpha alphabet.Alphabet) string {
 	return sioCalls(rd, false, sioLineCount(data)+4)
 }
 
+// sioReadFastaPfx: the same with the exported prefix fields of the reader set by the user.
+func sioReadFastaPfx(data []byte, typ string, alpha alphabet.Alphabet, idPrefix, seqPrefix []byte) string {
+	rd := fasta.NewReader(sioSource(data), sioTemplate(typ, alpha, alphabet.Sanger))
+	rd.IDPrefix, rd.SeqPrefix = idPrefix, seqPrefix
+	return sioCalls(rd, false, sioLineCount(data)+4)
+}
+
+// prefixes a user may set: the defaults, the ones gff.Writer sets for inline sequences, and
+// ones that contain blanks, repeat each other or are empty
+var sioPrefixPairs = [][2]string{{">", ""}, {"##DNA ", "##"}, {"##Protein ", "##"}, {"##RNA ", "##"}, {">>", ">"}, {"", ""}, {"@", "+"},
+	{";", " "}, {"id:", "seq:"}, {"> ", ""}, {">\t", "\t"}, {"#", "#"}, {"##", "##"}, {"x y", "z"}, {">", ">"}, {"ab", "a"}, {"a", "ab"}}
+
 func sioReadFastq(data []byte, typ string, alpha alphabet.Alphabet, enc alphabet.Encoding) string {
 	rd := fastq.NewReader(sioSource(data), sioTemplate(typ, alpha, enc))
 	return sioCalls(rd, true, sioLineCount(data)+4)
